@@ -3,11 +3,14 @@
 package req
 
 import (
+	"context"
+	"crypto/tls"
 	"net"
 
 	h2internal "github.com/imroc/req/v3/internal/http2"
 	"github.com/imroc/req/v3/internal/http3"
 	"github.com/imroc/req/v3/pkg/altsvc"
+	"github.com/quic-go/quic-go"
 )
 
 // VerifPoolSnap is a lock-consistent copy of the HTTP/1.1 pool bookkeeping of a Transport
@@ -96,3 +99,12 @@ func VerifH3Snapshot(t *Transport) []http3.VerifH3Client {
 
 // VerifAltSvcJar returns the Alt-Svc cache of t (nil when HTTP/3 support is disabled).
 func VerifAltSvcJar(t *Transport) altsvc.Jar { return t.altSvcJar }
+
+// VerifSetH3Dial installs a dial function on t's HTTP/3 round tripper (nil-safe; call after
+// EnableHTTP3 / EnableForceHTTP3 and before the first request): lets a harness hold a QUIC dial
+// pending while further requests join it.
+func VerifSetH3Dial(t *Transport, dial func(ctx context.Context, addr string, tlsCfg *tls.Config, cfg *quic.Config) (quic.EarlyConnection, error)) {
+	if t.t3 != nil {
+		t.t3.Dial = dial
+	}
+}
